@@ -15,8 +15,8 @@ def run(rep, tier, seed, replay=None):
     if replay and replay.get("case_obj"):
         jobs = [(replay["case_obj"], replay.get("comp", 0), replay.get("pickseed", 1), replay.get("frame", {}))]
     else:
-        plain, _ = codecrun.gen_cases(ctx, rng, n // 2, comp_mode=False)
-        comp, _ = codecrun.gen_cases(ctx, rng, n, comp_mode=True, allow_single=True)     # a compressed message may hold a single subset
+        plain, _ = codecrun.gen_cases(ctx, rng, n // 2, comp_mode=False, allow203=True)
+        comp, _ = codecrun.gen_cases(ctx, rng, n, comp_mode=True, allow_single=True, allow203=True)     # a compressed message may hold a single subset
         jobs = []
         for c in plain + comp:
             cm = 1 if (c["same"] and (len(c["subsets"]) >= 2 or rng.random() < 0.7)) else 0
